@@ -30,6 +30,9 @@ ASSUMPTIONS = [
     "MEI: every staffDef is a part, staff number = staff@n, voice = layer@n (compared exactly); kern: only the "
     "partition of notes into voices is compared (voice numbers are the reader's choice), parts may come in spine "
     "order or reversed",
+    "staff numbers: every positive integer written in *staffN / staffDef@n / staff@n is the staff number of the notes (neither "
+    "format nor reader documents an upper limit; the staff-number spaces go up to 1001 and to 40 spines/staves); the voices of a "
+    "kern part are compared as a partition (multiset of voice contents), which is the same as searching a bijection of voice numbers",
     "alter None and 0 are the same spelling; a key mode is compared only when the document declares one (kern never)",
     "measure starts: every encoded barline/measure element must start a measure; a measure at the very beginning "
     "(music before the first kern barline) and an empty one at the final kern barline are accepted, not required",
@@ -1097,7 +1100,7 @@ def g_roundtrip(fmt, tier, seed):
 #   kern-export-row-budget  save_kern raises IndexError for parts with many clefs/signatures: the output table has room
 #                           for notes + rests + measures + 12 rows, while every Clef, TimeSignature, KeySignature and
 #                           Tempo takes a row of its own - a part with 9 or more Clef objects (10+ staves) overflows
-FIXES_PENDING = ("kern-more-spines-than-lines", "kern-export-row-budget")  # ("kern-interp-line-inside-note": repaired in /repo 7b7b2b6)
+FIXES_PENDING = ()  # (repaired in /repo: "kern-interp-line-inside-note" 7b7b2b6, "kern-more-spines-than-lines" d22454d, "kern-export-row-budget" 632abb0)
 KERN_EXPORT_MAX_CLEFS = 9  # while kern-export-row-budget is pending: parts with more Clef objects are left out of roundtrip-kern-staves
 
 
